@@ -139,11 +139,24 @@ def replaceArgVars (cfg : Cfg) (ext : Ext F) (tin : Scalar → Table) (inputs : 
         | some (.nonNull (.list b)) => if cfg.listNotCoerced then none else some b
         | _ => none
       let rs := xs.map (replaceArgVars cfg ext tin inputs vars fuel mt)
-      (.list (rs.map (·.1)), (rs.map (·.2)).sum)
+      let l : Val F := .list (rs.map (·.1))
+      let errs := (rs.map (·.2)).sum
+      -- repaired: when the declared type is not a list type the type's own `CoerceIn` decides about the list
+      (match at_ with
+       | some (.list _) | some (.nonNull (.list _)) | none => (l, errs)
+       | some t =>
+         if cfg.listNotCoerced then (l, errs)
+         else let (r, e) := coerceInT ext tin inputs 64 t l; (r, errs + (if e then 1 else 0)))
     | .go (.sym s) =>
       (match at_.map baseType with
        | some (.enum vals) => (v, if vals.contains s then 0 else 1)
-       | _ => (v, if cfg.symbolUnchecked then 0 else 1))
+       | _ =>
+         -- repaired: a symbol for a type that is not an enum goes through that type's `CoerceIn`
+         (match at_ with
+          | some t =>
+            if cfg.symbolUnchecked then (v, 0)
+            else let (r, e) := coerceInT ext tin inputs 64 t v; (r, if e then 1 else 0)
+          | none => (v, 0)))
     | .go g =>
       (match at_ with
        | some t => let (r, e) := coerceInT ext tin inputs 64 t (.go g); (r, if e then 1 else 0)
@@ -176,7 +189,6 @@ def formArgs (cfg : Cfg) (ext : Ext F) (tin : Scalar → Table) (inputs : List (
     match lookup supplied vd.name with
     | some v =>
       if v.isNil && cfg.nullVarUsesDefault then (acc.1 ++ [(vd.name, d)], false)
-      else if v.isNil then (acc.1 ++ [(vd.name, v)], false)
       else
         let (r, e) := coerceInT ext tin inputs 64 vd.type v
         if e then (acc.1, true) else (acc.1 ++ [(vd.name, r)], false)
